@@ -1,6 +1,7 @@
 package main
 
 import (
+	"crypto/tls"
 	"fmt"
 	"net"
 	"path/filepath"
@@ -151,8 +152,89 @@ func dispatch(run *lib.Run) {
 		cli.Stop()
 		up.Close()
 	}
+	transportConnects(run)
 	run.Floor("dispatch_requests_observed", int64(3*n*8/10))
 	run.Floor("dispatch_connects_observed", int64(3*n*8/10))
+	run.Floor("transport_connects_observed", 3)
 	_ = net.IPv4len
 	_ = strings.TrimSpace
+}
+
+// transportConnects: with MITM and an upstream proxy the CONNECT is issued by the proxy's own
+// transport, not relayed from the client; the --connect-header rules (add, empty, remove, rename)
+// apply to it too, exactly once per CONNECT, however many went before.
+func transportConnects(run *lib.Run) {
+	const idx = 20_900_000
+	if !run.Want(idx) {
+		return
+	}
+	run.Case(idx, "dispatch|transport-connect", nil)
+	up := lib.MustOrigin("upstream", "127.0.0.1:0", nil, func(oc *lib.OConn, req *lib.Msg) lib.Action {
+		if req.Method == "CONNECT" {
+			oc.Write([]byte("HTTP/1.1 200 OK\r\n\r\n"))
+			return lib.Close // the TLS handshake that follows has nowhere to go: the inner request fails, the CONNECT was recorded
+		}
+		oc.Write(lib.SimpleResponse(200, "OK", nil, []byte("ok")))
+		return lib.Continue
+	})
+	defer up.Close()
+	args := []string{"--address", "127.0.0.1:0", "--proxy-localhost", "allow", "--proxy", "http://" + up.Addr, "--mitm", "--insecure", "--http-dial-attempts", "1",
+		"--connect-header", "X-Cn-Add: v1", "--connect-header", "X-Cn-Tmp: t", "--connect-header", "-X-Cn-Tmp", "--connect-header", "X-Cn-Emp;", "--connect-header", "x-cn-case: 1", "--connect-header", "%X-CN-CASE",
+		"--header", "X-Rq-Add: r"}
+	cli, err := lib.StartCLI(lib.Bin(run, "forwarder"), args, nil, filepath.Join(run.Work, "cli-transport-connect.log"), "")
+	if err != nil {
+		run.Inconclusive("cli start: " + err.Error())
+		return
+	}
+	defer cli.Stop()
+	for round := 1; round <= 3; round++ {
+		before := 0
+		for _, q := range up.Requests() {
+			if q.Method == "CONNECT" {
+				before++
+			}
+		}
+		st, err := lib.Dial(cli.ProxyAddr)
+		if err != nil {
+			run.Inconclusive("dial cli")
+			return
+		}
+		host := fmt.Sprintf("site%d.test", round)
+		fmt.Fprintf(st.C, "CONNECT %s:443 HTTP/1.1\r\nHost: %s:443\r\n\r\n", host, host)
+		if res, pst, _ := st.ReadResponse("CONNECT", 10*time.Second); pst != lib.POK || res.Status != 200 {
+			run.Inconclusive(fmt.Sprintf("CONNECT to the intercepting proxy: %v", res))
+			st.Close()
+			return
+		}
+		tc := tls.Client(st.C, &tls.Config{InsecureSkipVerify: true, ServerName: host})
+		tc.SetDeadline(time.Now().Add(10 * time.Second))
+		if err := tc.Handshake(); err != nil {
+			run.Inconclusive("mitm handshake: " + err.Error())
+			st.Close()
+			return
+		}
+		fmt.Fprintf(tc, "GET /t HTTP/1.1\r\nHost: %s\r\n\r\n", host)
+		lib.NewStream(tc).ReadResponse("GET", 10*time.Second) // an error response: the upstream ends the tunnel
+		st.Close()
+		var q *lib.Msg
+		n := 0
+		for _, r := range up.Requests() {
+			if r.Method == "CONNECT" {
+				n++
+				if n == before+1 {
+					q = r
+				}
+			}
+		}
+		if q == nil {
+			run.Violation("dispatch:transport-connect-not-sent", fmt.Sprintf("https request #%d inside an intercepted session: the upstream proxy saw no CONNECT", round), idx, nil)
+			return
+		}
+		run.Count("transport_connects_observed", 1)
+		one := func(xs []string, v string) bool { return len(xs) == 1 && xs[0] == v }
+		if !one(q.Get("X-Cn-Add"), "v1") || q.Has("X-Cn-Tmp") || !one(q.Get("X-Cn-Emp"), "") || !one(q.Get("X-Cn-Case"), "1") || q.Has("X-Rq-Add") {
+			run.Violation("dispatch:connect-rules-on-transport-connect", fmt.Sprintf("CONNECT #%d issued by the proxy's transport: want X-Cn-Add [v1], no X-Cn-Tmp (added then removed), X-Cn-Emp [\"\"], X-Cn-Case [1], no X-Rq-Add; the upstream proxy saw %v", round, q.Fields), idx, map[string]any{"args": args})
+			return
+		}
+	}
 }
